@@ -28,10 +28,26 @@ PH = "src/packet/header.rs"
 item("maxPartialLenLog2", PH, r"const MAX_PARTIAL_LEN: u32 = 2u32\.pow\((\d+)\)", "header.rs MAX_PARTIAL_LEN = 2^k")
 item("phwNewOneOctetLimit", PH, r"fn write_len.*?Self::New \{.*?if \*len < (\d+)", "PacketHeader::write_len New first threshold")
 item("phwNewTwoOctetLimit", PH, r"fn write_len.*?Self::New \{.*?else if \*len < (\d+)", "PacketHeader::write_len New second threshold")
-item("phwOldOneOctetLimit", PH, r"fn write_len.*?Self::Old \{.*?if \*len < (\d+)", "PacketHeader::write_len Old first threshold")
-item("phwOldTwoOctetLimit", PH, r"fn write_len.*?Self::Old \{.*?else if \*len < (\d+)", "PacketHeader::write_len Old second threshold")
-item("phtOldOneOctetLimit", PH, r"fn to_writer.*?Self::Old \{ header, length \}.*?if \*len < (\d+)", "PacketHeader::to_writer Old first threshold")
-item("phtOldTwoOctetLimit", PH, r"fn to_writer.*?Self::Old \{ header, length \}.*?else if \*len < (\d+)", "PacketHeader::to_writer Old second threshold")
+# (the number of length octets of a legacy header follows the length TYPE stored in its first octet)
+def _arm(t, fn, arm, table):
+    m = re.search(fn + r".*?Self::Old \{ header(?:: _)?, length \} => match length \{.*?match header\.length_type\(\) \{(.*?)\n                    \}", t, re.S)
+    if not m:
+        return None
+    a = re.search(r"(?:^|\n)\s*(?://[^\n]*\n\s*)?" + re.escape(arm) + r" => ([^\n]*)", m.group(1))
+    if not a:
+        return None
+    for k, v in table:
+        if k in a.group(1):
+            return v
+    return None
+_W = [("write_u8", 1), ("write_u16", 2), ("write_u32", 4)]
+_L = [("1 + 1", 2), ("1 + 2", 3), ("1 + 4", 5)]
+item("phtOldType0Octets", PH, lambda t: _arm(t, r"fn to_writer", "0", _W), "PacketHeader::to_writer Old: length octets written for length type 0")
+item("phtOldType1Octets", PH, lambda t: _arm(t, r"fn to_writer", "1", _W), "PacketHeader::to_writer Old: length octets written for length type 1")
+item("phtOldType2Octets", PH, lambda t: _arm(t, r"fn to_writer", "_", _W), "PacketHeader::to_writer Old: length octets written for length type 2")
+item("phwOldType0Len", PH, lambda t: _arm(t, r"fn write_len", "0", _L), "PacketHeader::write_len Old: header size for length type 0")
+item("phwOldType1Len", PH, lambda t: _arm(t, r"fn write_len", "1", _L), "PacketHeader::write_len Old: header size for length type 1")
+item("phwOldType2Len", PH, lambda t: _arm(t, r"fn write_len", "_", _L), "PacketHeader::write_len Old: header size for length type 2")
 item("oftOneOctetLimit", PH, r"fn old_fixed_type\(len: u32\) -> u8 \{\s*if len < (\d+) \{\s*0", "old_fixed_type: lengths below this get length type 0 (one octet)")
 item("oftTwoOctetLimit", PH, r"fn old_fixed_type\(len: u32\) -> u8 \{.*?\} else if len < (\d+) \{\s*1\s*\} else \{\s*2", "old_fixed_type: lengths below this get length type 1 (two octets), others type 2 (four octets)")
 # ---- reader/packet_body.rs ---------------------------------------------------------------
